@@ -691,6 +691,18 @@ def instantiate_fn(fs, item, em):
                 edits.append((b1.start, hdr_end, header + ctext + "{ "))
                 edits.append((toks[c["body_end"]].end, toks[c["body_end"]].end, " }"))
             c["_annotated"] = True
+        # a closure that was not there when the contracts were written and got no contract (not even through the any/all
+        # twin rule): Verus knows nothing about what it returns, so obligations of this function that fail cannot be told
+        # from a violation (reported as undecided)
+        if _base is not None:
+            _rest2 = list(_base["closures"]); _newc = []
+            for c in cls:
+                if c["callee"] in _rest2:
+                    _rest2.remove(c["callee"])
+                elif not c.get("_annotated"):
+                    _newc.append(c["callee"])
+            if _newc:
+                degraded.append("new closure(s) without a contract passed to %s" % sorted(set(_newc)))
         # closures without a contract: a bare `_` parameter still has to get a name (Verus rejects `_` closure params)
         for c in cls:
             if c.get("_annotated"):
